@@ -15,7 +15,7 @@ Slice of a property = closure of its roots under a reference relation that over-
     file imports x (`from m import x [as y]`), to the module-level part x of m (classes included);
   * `alias.x` / `pkg.sub.x` where the root name is an imported module or package refers to every module-level part named x in
     the package;
-  * `self.x` / `cls.x` refers to every method named x in the inheritance family of the class (the connected component of the
+  * `self.x` / `cls.x` / `super().x` refers to every method named x in the inheritance family of the class (the connected component of the
     base-class relation: sound for any MRO); every other attribute `e.x` refers to EVERY method named x in any class (duck
     typing, callbacks);
   * a class named in a type-only position (annotation, isinstance/issubclass/cast argument, except clause) => its class
@@ -103,7 +103,8 @@ def _refs(nodes, local=(), own=False):
                     out.add(("t" if t else "n", x.id))
             elif isinstance(x, ast.Attribute):
                 r = _root_name(x.value) if isinstance(x.value, (ast.Name, ast.Attribute)) else None
-                if r in ("self", "cls") and isinstance(x.value, ast.Name):
+                if (r in ("self", "cls") and isinstance(x.value, ast.Name)) or \
+                        (isinstance(x.value, ast.Call) and isinstance(x.value.func, ast.Name) and x.value.func.id == "super"):
                     out.add(("s", x.attr))
                     continue
                 if r is not None and r not in local and r not in ("self", "cls"):
